@@ -38,6 +38,7 @@ import (
 	"sync/atomic"
 	"time"
 
+	"github.com/ozontech/file.d/cfg"
 	"github.com/ozontech/file.d/decoder"
 	"github.com/ozontech/file.d/pipeline"
 	"github.com/ozontech/file.d/pipeline/metadata"
@@ -52,6 +53,7 @@ import (
 type c11WireCtl struct {
 	mu      sync.Mutex
 	log     [][]byte
+	nmeta   []int // number of meta keys of the In call that produced log[i]
 	probes  map[string]bool
 	n       int
 	parkAt  int // -1: never
@@ -63,7 +65,7 @@ func c11NewWireCtl(parkAt int) *c11WireCtl {
 	return &c11WireCtl{probes: map[string]bool{}, parkAt: parkAt, parked: make(chan struct{}), release: make(chan struct{})}
 }
 
-func (c *c11WireCtl) In(_ pipeline.SourceID, _ string, _ pipeline.Offsets, data []byte, _ bool, _ metadata.MetaData) uint64 {
+func (c *c11WireCtl) In(_ pipeline.SourceID, _ string, _ pipeline.Offsets, data []byte, _ bool, meta metadata.MetaData) uint64 {
 	if bytes.HasPrefix(data, []byte("probe-")) {
 		c.mu.Lock()
 		c.probes[string(data)] = true
@@ -81,6 +83,7 @@ func (c *c11WireCtl) In(_ pipeline.SourceID, _ string, _ pipeline.Offsets, data 
 	cp := append([]byte(nil), data...)
 	c.mu.Lock()
 	c.log = append(c.log, cp)
+	c.nmeta = append(c.nmeta, len(meta))
 	c.mu.Unlock()
 	return 1
 }
@@ -145,8 +148,19 @@ func c11Dial(addr string, tlsOn bool) (net.Conn, error) {
 	return conn, nil
 }
 
+// c11WireOpt: what a request of the header streams (which = 13, headers.go) adds to the plain POST / of which = 10
+type c11WireOpt struct {
+	target  string      // request target, "" = "/"
+	headers [][2]string // extra header lines, sent as they are
+	odd     int         // framing oddity the net/http server accepts (c11Odd* in headers.go); 0 = none
+}
+
 // c11WireDo sends one POST / over a new connection.  status 0 = no answer.
 func c11WireDo(addr string, tlsOn, gz bool, framing int, pieces [][]byte, abort bool) int {
+	return c11WireDoX(addr, tlsOn, gz, framing, pieces, abort, c11WireOpt{})
+}
+
+func c11WireDoX(addr string, tlsOn, gz bool, framing int, pieces [][]byte, abort bool, opt c11WireOpt) int {
 	conn, err := c11Dial(addr, tlsOn)
 	if err != nil {
 		return 0
@@ -156,12 +170,39 @@ func c11WireDo(addr string, tlsOn, gz bool, framing int, pieces [][]byte, abort 
 	for _, p := range pieces {
 		total += len(p)
 	}
-	hd := "POST / HTTP/1.1\r\nHost: verif\r\nConnection: close\r\n"
+	target, proto := opt.target, "HTTP/1.1"
+	if target == "" {
+		target = "/"
+	}
+	odd := opt.odd
+	if framing == 0 && odd == c11OddHTTP10 || framing != 0 && (odd == c11OddChunkExt || odd == c11OddTrailer || odd == c11OddTECase || odd == c11OddTEAndCL) {
+		odd = 0 // does not apply to this framing
+	}
+	if odd == c11OddHTTP10 {
+		proto = "HTTP/1.0"
+	}
+	hd := "POST " + target + " " + proto + "\r\nHost: verif\r\nConnection: close\r\n"
+	for _, h := range opt.headers {
+		hd += h[0] + ": " + h[1] + "\r\n"
+	}
 	if gz {
 		hd += "Content-Encoding: gzip\r\n"
 	}
+	if odd == c11OddExpect {
+		hd += "Expect: 100-continue\r\n"
+	}
 	if framing == 0 {
-		hd += "Transfer-Encoding: chunked\r\n\r\n"
+		switch odd {
+		case c11OddTECase:
+			hd += "Transfer-Encoding: Chunked\r\n"
+		case c11OddTrailer:
+			hd += "Trailer: X-Verif-Trailer\r\nTransfer-Encoding: chunked\r\n"
+		case c11OddTEAndCL:
+			hd += fmt.Sprintf("Content-Length: %d\r\nTransfer-Encoding: chunked\r\n", total+3)
+		default:
+			hd += "Transfer-Encoding: chunked\r\n"
+		}
+		hd += "\r\n"
 	} else {
 		n := total
 		if abort {
@@ -172,13 +213,31 @@ func c11WireDo(addr string, tlsOn, gz bool, framing int, pieces [][]byte, abort 
 	if _, err := conn.Write([]byte(hd)); err != nil {
 		return 0
 	}
+	br := bufio.NewReader(conn)
+	if odd == c11OddExpect {
+		// a client that waits for the interim answer before it sends the body (the server sends it at the first Read of
+		// the body); a final answer instead = the body is never sent
+		resp, err := http.ReadResponse(br, nil)
+		if err != nil {
+			return 0
+		}
+		if resp.StatusCode != 100 {
+			io.Copy(io.Discard, resp.Body)
+			resp.Body.Close()
+			return resp.StatusCode
+		}
+	}
 	for _, p := range pieces {
 		if len(p) == 0 {
 			continue // a zero-length HTTP chunk would end the body
 		}
 		var w []byte
 		if framing == 0 {
-			w = append(w, fmt.Sprintf("%x\r\n", len(p))...)
+			if odd == c11OddChunkExt {
+				w = append(w, fmt.Sprintf("%x;verif=1;q=\"a b\"\r\n", len(p))...)
+			} else {
+				w = append(w, fmt.Sprintf("%x\r\n", len(p))...)
+			}
 			w = append(w, p...)
 			w = append(w, "\r\n"...)
 		} else {
@@ -192,21 +251,30 @@ func c11WireDo(addr string, tlsOn, gz bool, framing int, pieces [][]byte, abort 
 		return 0
 	}
 	if framing == 0 {
-		if _, err := conn.Write([]byte("0\r\n\r\n")); err != nil {
+		last := "0\r\n\r\n"
+		if odd == c11OddTrailer {
+			last = "0\r\nX-Verif-Trailer: a=1&b=2\r\n\r\n"
+		}
+		if _, err := conn.Write([]byte(last)); err != nil {
 			return 0
 		}
 	}
-	resp, err := http.ReadResponse(bufio.NewReader(conn), nil)
-	if err != nil {
-		return 0
+	for {
+		resp, err := http.ReadResponse(br, nil)
+		if err != nil {
+			return 0
+		}
+		if resp.StatusCode/100 == 1 {
+			continue // an interim answer
+		}
+		io.Copy(io.Discard, resp.Body)
+		resp.Body.Close()
+		return resp.StatusCode
 	}
-	io.Copy(io.Discard, resp.Body)
-	resp.Body.Close()
-	return resp.StatusCode
 }
 
 // c11Listen starts a plugin that listens itself and makes sure it is the one that answers on the address
-func c11Listen(tlsOn bool, ctl *c11WireCtl) *c11Srv {
+func c11Listen(tlsOn bool, ctl *c11WireCtl, meta cfg.MetaTemplates) *c11Srv {
 	logger := zap.New(zapcore.NewNopCore(), zap.WithFatalHook(zapcore.WriteThenGoexit))
 	for try := 0; try < 8; try++ {
 		l, err := net.Listen("tcp", "127.0.0.1:0")
@@ -217,6 +285,9 @@ func c11Listen(tlsOn bool, ctl *c11WireCtl) *c11Srv {
 		l.Close()
 		p := c11StartPlugin(ctl, logger, func(c *httpin.Config) {
 			c.Address = addr
+			if len(meta) > 0 {
+				c.Meta = meta
+			}
 			if tlsOn {
 				c.CACert, c.PrivateKey = c11Cert()
 			}
@@ -253,7 +324,7 @@ func c11SharedSrv(tlsOn bool) *c11Srv {
 		k = 1
 	}
 	if c11Srvs[k] == nil {
-		c11Srvs[k] = c11Listen(tlsOn, c11NewWireCtl(-1))
+		c11Srvs[k] = c11Listen(tlsOn, c11NewWireCtl(-1), nil)
 	}
 	return c11Srvs[k]
 }
@@ -299,7 +370,7 @@ func c11ExecWire(cs hx.Sx) hx.Sx {
 	c11SrvMu.Lock() // one case at a time on the shared listener
 	defer c11SrvMu.Unlock()
 	s.ctl.mu.Lock()
-	s.ctl.log = nil
+	s.ctl.log, s.ctl.nmeta = nil, nil
 	s.ctl.mu.Unlock()
 	n := len(reqs)
 	codes := make([]int, n)
@@ -319,25 +390,7 @@ func c11ExecWire(cs hx.Sx) hx.Sx {
 	defer s.ctl.mu.Unlock()
 	perReq := make([][][]byte, n)
 	for _, e := range s.ctl.log {
-		if n == 1 {
-			perReq[0] = append(perReq[0], e)
-			continue
-		}
-		owner := -1
-		for _, ch := range e {
-			if ch >= 'A' && ch <= 'Z' {
-				o := int(ch - 'A')
-				switch {
-				case o >= n:
-					owner = -3
-				case owner == -1:
-					owner = o
-				case owner != o && owner >= 0:
-					owner = -2
-				}
-			}
-		}
-		switch {
+		switch owner := c11WireOwner(e, n); {
 		case owner >= 0:
 			perReq[owner] = append(perReq[owner], e)
 		case owner == -2:
@@ -355,6 +408,29 @@ func c11ExecWire(cs hx.Sx) hx.Sx {
 	return hx.L(out...)
 }
 
+// c11WireOwner: which of the n concurrent requests of a case an event belongs to (request i only uses the letter 'A'+i);
+// -1 no letter at all, -2 letters of two requests, -3 a letter of no request of the case.  n = 1: everything is request 0's.
+func c11WireOwner(e []byte, n int) int {
+	if n == 1 {
+		return 0
+	}
+	owner := -1
+	for _, ch := range e {
+		if ch >= 'A' && ch <= 'Z' {
+			o := int(ch - 'A')
+			switch {
+			case o >= n:
+				owner = -3
+			case owner == -1:
+				owner = o
+			case owner != o && owner >= 0:
+				owner = -2
+			}
+		}
+	}
+	return owner
+}
+
 func c11ExecStop(cs hx.Sx) hx.Sx {
 	it := hx.Items(cs)
 	gz, park, abort := hx.Int(it[0]) == 1, int(hx.Int(it[1])), hx.Int(it[2]) == 1
@@ -369,7 +445,7 @@ func c11ExecStop(cs hx.Sx) hx.Sx {
 		}
 	}
 	ctl := c11NewWireCtl(park)
-	s := c11Listen(false, ctl)
+	s := c11Listen(false, ctl, nil)
 	resp := make(chan int, 1)
 	go func() { resp <- c11WireDo(s.addr, false, gz, 0, pieces, abort) }()
 	status, answered, parked := 0, false, false
